@@ -27,8 +27,10 @@ EVAL_C08 = ["T_Completes", "T_Counts", "T_Tp", "T_FpFn", "T_ZeroTpSq", "T_ZeroTp
 EVAL_C13 = ["T_Completes", "T_Global"]
 
 MODELS_QUICK = [("MC_Pipeline", "MC_Pipeline_quick.cfg")]
-MODELS_THOROUGH = [("MC_Pipeline", "MC_Pipeline_thorough.cfg"), ("MC_Pipeline", "MC_Pipeline_thorough1d.cfg"),
-                   ("MC_Pipeline", "MC_Pipeline_thorough3d.cfg")]
+# thorough: all 37 configurations on 2x2 with labels 0..2 (2.4 M states), the small configuration set on
+# 2x3 (labels 0..2), 2x2x2 (labels 0..1) and all configurations on 1x5
+MODELS_THOROUGH = [("MC_Pipeline", "MC_Pipeline_thoroughall.cfg"), ("MC_Pipeline", "MC_Pipeline_thorough1d.cfg"),
+                   ("MC_Pipeline", "MC_Pipeline_thorough3d.cfg"), ("MC_Pipeline", "MC_Pipeline_thorough.cfg")]
 
 
 def _exc(rec):
